@@ -18,7 +18,15 @@ import (
 	"verifharness/ref"
 )
 
-func init() { monitors["C04"] = monC04 }
+func init() {
+	monitors["C04"] = monC04
+	preludes["C04"] = func(c *child.Ctx) {
+		if c.Batch%2 == 1 {
+			c04ConcurrentDecodes(c, ref.NewRand(c.Seed*31+uint64(c.Batch)*131+4))
+			c.Count("processes_whose_first_decodes_were_side_by_side", 1)
+		}
+	}
+}
 
 // decoded is the neutral form both decoders' results are copied into, field by
 // field through the exported API, before comparison with the encoded description.
@@ -408,6 +416,59 @@ func validateEncoder(c *child.Ctx) {
 	}
 }
 
+// c04ConcurrentDecodes: several receivers' messages decoded at the same time.
+func c04ConcurrentDecodes(c *child.Ctx, r *ref.SplitMix64) {
+	// several receivers' messages decoded at the same time by different goroutines
+	// (the proxy's connections, the fan-out's consumers): each result is that of its
+	// own message
+	nc := c.Share(c.Pick(24000, 400000))
+	var wg sync.WaitGroup
+	var bad atomic.Value
+	for g := 0; g < 4; g++ {
+		wg.Add(1)
+		go func(g int) {
+			defer wg.Done()
+			rr := ref.NewRand(r.Uint64() + uint64(g)*104729)
+			for i := 0; i < nc/4 && bad.Load() == nil; i++ {
+				m := gen.RandMSM(rr, gen.MSMOpts{Type: ref.MSMTypes[(i+g)%len(ref.MSMTypes)], AllowNoCell: true})
+				m.PadBytes = rr.Intn(3)
+				p := ref.EncodeMSM(m)
+				if len(p) > 1023 {
+					continue
+				}
+				kc := msmCase{M: m, Pads: []int{m.PadBytes}}
+				var why string
+				func() {
+					defer func() {
+						if x := recover(); x != nil {
+							why = fmt.Sprintf("panic: %v", x)
+						}
+					}()
+					direct, _, errText := decodeMSMBothWays(ref.Frame(p), ref.IsMSM7(m.Type), slog.LevelInfo)
+					if direct == nil {
+						why = "well-formed message rejected: " + errText
+						return
+					}
+					why = compareMSM(m, direct)
+				}()
+				if why != "" {
+					cj, _ := json.Marshal(kc)
+					bad.Store([2]string{"decoded while three other goroutines were decoding their own messages: " + why, string(cj)})
+				}
+				if i%256 == 0 {
+					tick()
+				}
+			}
+		}(g)
+	}
+	wg.Wait()
+	if v := bad.Load(); v != nil {
+		c.Violate("decode-mismatch", v.([2]string)[0], []byte(v.([2]string)[1]))
+	}
+	c.Count("concurrent_decodes_compared", int64(nc))
+	c.EvalN(1)
+}
+
 func monC04(c *child.Ctx, replay json.RawMessage) {
 	if replay != nil && hasKey(replay, "frames_back_to_back_in_one_buffer") {
 		// relational replay: each frame decoded from its sub-slice of the buffer must
@@ -451,57 +512,7 @@ func monC04(c *child.Ctx, replay json.RawMessage) {
 		return
 	}
 	r := ref.NewRand(c.Seed*217645199 + uint64(c.Batch)*236887691 + 4)
-	concurrentDecodes := func() {
-		// several receivers' messages decoded at the same time by different goroutines
-		// (the proxy's connections, the fan-out's consumers): each result is that of its
-		// own message
-		nc := c.Share(c.Pick(24000, 400000))
-		var wg sync.WaitGroup
-		var bad atomic.Value
-		for g := 0; g < 4; g++ {
-			wg.Add(1)
-			go func(g int) {
-				defer wg.Done()
-				rr := ref.NewRand(r.Uint64() + uint64(g)*104729)
-				for i := 0; i < nc/4 && bad.Load() == nil; i++ {
-					m := gen.RandMSM(rr, gen.MSMOpts{Type: ref.MSMTypes[(i+g)%len(ref.MSMTypes)], AllowNoCell: true})
-					m.PadBytes = rr.Intn(3)
-					p := ref.EncodeMSM(m)
-					if len(p) > 1023 {
-						continue
-					}
-					kc := msmCase{M: m, Pads: []int{m.PadBytes}}
-					var why string
-					func() {
-						defer func() {
-							if x := recover(); x != nil {
-								why = fmt.Sprintf("panic: %v", x)
-							}
-						}()
-						direct, _, errText := decodeMSMBothWays(ref.Frame(p), ref.IsMSM7(m.Type), slog.LevelInfo)
-						if direct == nil {
-							why = "well-formed message rejected: " + errText
-							return
-						}
-						why = compareMSM(m, direct)
-					}()
-					if why != "" {
-						cj, _ := json.Marshal(kc)
-						bad.Store([2]string{"decoded while three other goroutines were decoding their own messages: " + why, string(cj)})
-					}
-					if i%256 == 0 {
-						tick()
-					}
-				}
-			}(g)
-		}
-		wg.Wait()
-		if v := bad.Load(); v != nil {
-			c.Violate("decode-mismatch", v.([2]string)[0], []byte(v.([2]string)[1]))
-		}
-		c.Count("concurrent_decodes_compared", int64(nc))
-		c.EvalN(1)
-	}
+	concurrentDecodes := func() { c04ConcurrentDecodes(c, r) }
 	// frames that lie one behind the other in one read buffer, each handed to the decoder
 	// as a sub-slice: decoding one must leave the bytes behind it alone
 	backToBack := func() {
@@ -560,10 +571,8 @@ func monC04(c *child.Ctx, replay json.RawMessage) {
 			c.EvalN(1)
 		}
 	}
-	if c.Batch%2 == 1 {
-		// in half of the processes the very first decodes happen side by side
-		concurrentDecodes()
-	}
+	// (in the odd batches the prelude has already run the side-by-side decodes, as the
+	// first decodes of the process)
 	validateEncoder(c)
 	n := c.Share(c.Pick(40000, 600000))
 	npads := c.Pick(4, 8)
